@@ -12,7 +12,7 @@ EXTRA = {
     "revert-F1-sha1-salt": ["C04", "C06"], "revert-F2-gensalt-sha-abort": ["C13"],
     "revert-F3-gensalt-sha-nr3": ["C12"], "revert-F5-neg-nrbytes": ["C04", "C13"],
     "revert-F6-des-shift": ["C04"], "revert-F7-scrypt-rehash": ["C01"], "c10-bcrypt-15": ["C12"],
-    "c07-ra-no-token": ["C07", "C05"], "revert-F8-bigcrypt-gensalt-token": ["C13"], "revert-F9-sha1-signed-count": ["C05"],
+    "c07-ra-no-token": ["C07", "C05"], "revert-F8-bigcrypt-gensalt-token": ["C13"], "revert-F9-sha1-signed-count": ["C05"], "revert-F11-md45-length-high-word": ["C16"],
 }
 def changes():
     out = []
